@@ -215,6 +215,18 @@ Section Verify.
         end
     end.
 
+  (* does VerifySignature go to the JWKS endpoint?  (empty cache, no usable
+     cached key, or a kid-less / inexact cached key that failed) *)
+  Definition remote_needs_fetch (cached : list jwk) (skip : bool) (e : sigentry) (p : string) : bool :=
+    match cached with
+    | [] => true
+    | _ =>
+        match find_matching_key (se_kid e) "sig" (se_alg e) cached with
+        | FOk k => if verify k e p then false else negb (remote_exact skip (k_id k) (se_kid e))
+        | _ => true
+        end
+    end.
+
   Definition profile_verify (client : string) (store : list (string * string * jwk))
              (e : sigentry) (p : string) : option jwk :=
     match profile_lookup store client (se_kid e) with
@@ -246,6 +258,32 @@ Section Verify.
             | Some _ => if signed =s parsed then Ok (se_alg e) else Err ESigPayload
             end
         end
+    end.
+  (* One CheckSignature call on a remote key set whose cache is [cached] while
+     the endpoint serves [served]: the new cache (updateKeys REPLACES it by a
+     successful download) and whether a download succeeded. *)
+  Definition remote_after (allowed : list string) (skip : bool) (cached : list jwk)
+             (served : option (list jwk)) (t : token) : list jwk * bool :=
+    match jose_parse (effective_algs allowed) t with
+    | JOk [e] p =>
+        if remote_needs_fetch cached skip e p
+        then match served with Some l => (l, true) | None => (cached, false) end
+        else (cached, false)
+    | _ => (cached, false)
+    end.
+
+  (* a sequence of CheckSignature calls on ONE remote key set instance; before
+     each call the endpoint may have changed what it serves (rotation, withdrawal) *)
+  Record rstep := mkRStep { rs_served : option (list jwk); rs_tok : token; rs_parsed : string }.
+
+  Fixpoint remote_run (allowed : list string) (skip : bool) (cached : list jwk) (steps : list rstep)
+    : list (result string * bool) :=
+    match steps with
+    | [] => []
+    | s :: r =>
+        let st := remote_after allowed skip cached (rs_served s) (rs_tok s) in
+        (check_signature allowed (KSRemote cached (rs_served s) skip) (rs_tok s) (rs_parsed s), snd st)
+          :: remote_run allowed skip (fst st) r
     end.
 End Verify.
 
